@@ -173,6 +173,13 @@ class TypeRegistry(dict):
         Register one (or more) user-defined types used for matching types
         in step patterns of this matcher.
         """
+        for name, type_converter in kwargs.items():
+            if name in self and self[name] is not type_converter:
+                # -- TYPE-CONVERTER REPLACED: Discard the derived types for
+                #    cardinality-fields ("Name?", "Name*", "Name+"; cfparse),
+                #    they were built from the former type-converter.
+                for cardinality_suffix in ("?", "*", "+"):
+                    self.pop(name + cardinality_suffix, None)
         self.update(**kwargs)
 
     def has_type(self, name):
